@@ -568,6 +568,20 @@ func (ec *evalCtx) evalQuant(q *EQuant) Val {
 	// every access of that array whatever form its index has.
 	absPat := map[string]string{} // exprString(trigger) -> pattern term
 	absVar := map[string]bool{}
+	absSlice := map[string]string{}
+	// bound variables of other types may occur in the slice expression
+	// (n.values[j] with n bound): they are bound first
+	var intVars []QVar
+	penv := map[string]Val{}
+	for _, v := range q.Vars {
+		if v.Type == "int" || v.Type == "nat" {
+			intVars = append(intVars, v)
+			continue
+		}
+		val, _, _ := ec.boundVar(v.Name, v.Type)
+		penv[v.Name] = val
+	}
+	pec := ec.with(penv)
 	for _, v := range q.Vars {
 		if v.Type != "int" && v.Type != "nat" {
 			continue
@@ -591,10 +605,11 @@ func (ec *evalCtx) evalQuant(q *EQuant) Val {
 					}
 				}
 				id, ok := ix.I.(*EIdent)
-				if !ok || id.Name != v.Name || absVar[v.Name] {
+				if !ok || id.Name != v.Name {
 					continue
 				}
-				if mentionsAny(ix.X, q.Vars) {
+				again := absVar[v.Name] // a further trigger on the same variable
+				if mentionsAny(ix.X, intVars) {
 					continue
 				}
 				var sv Val
@@ -608,11 +623,11 @@ func (ec *evalCtx) evalQuant(q *EQuant) Val {
 						if ec.old == nil {
 							return false
 						}
-						n := *ec
+						n := *pec
 						n.heap = ec.old
 						sv = n.eval(ix.X)
 					} else {
-						sv = ec.eval(ix.X)
+						sv = pec.eval(ix.X)
 					}
 					return true
 				}()
@@ -621,12 +636,20 @@ func (ec *evalCtx) evalQuant(q *EQuant) Val {
 				}
 				isStructElem := kindOf(sliceElem(sv.Typ)) == KStruct
 				j := qsym(v.Name + "!abs")
-				absVar[v.Name] = true
-				k := "(- " + j + " (s-off " + sv.T + "))"
-				env[v.Name] = Val{K: KInt, T: k, Typ: types.Typ[types.Int]}
-				binders = append(binders, "("+j+" Int)")
-				if v.Type == "nat" {
-					guards = append(guards, sLe("0", k))
+				if again {
+					// only if it indexes a slice with the very same offset term
+					if absSlice[v.Name] != sv.T {
+						continue
+					}
+				} else {
+					absVar[v.Name] = true
+					absSlice[v.Name] = sv.T
+					k := "(- " + j + " (s-off " + sv.T + "))"
+					env[v.Name] = Val{K: KInt, T: k, Typ: types.Typ[types.Int]}
+					binders = append(binders, "("+j+" Int)")
+					if v.Type == "nat" {
+						guards = append(guards, sLe("0", k))
+					}
 				}
 				key := exprString(t)
 				if useOld {
@@ -740,6 +763,15 @@ func (ec *evalCtx) evalCall(c *ECall) Val {
 	case "cap":
 		v := ec.eval(arg(0))
 		return mathInt("(s-cap " + v.T + ")")
+	case "elemarr":
+		// the whole backing array of a slice of scalars, as a value
+		v := ec.eval(arg(0))
+		if v.K != KSlice || kindOf(sliceElem(v.Typ)) == KStruct {
+			panic(vcErrorf("elemarr of %v", v.K))
+		}
+		comp := ec.vc.elemComp(sliceElem(v.Typ))
+		_, es := splitArrSort(ec.vc.compSort[comp])
+		return Val{K: KArr, T: sSel(ec.hget(comp), "(s-arr "+v.T+")"), Sort: es}
 	case "arr":
 		v := ec.eval(arg(0))
 		return mathInt("(s-arr " + v.T + ")")
